@@ -18,7 +18,7 @@ def cfg_with(**kw):
 _NOISE = [0]
 
 
-def run_lines(drv, cfg, items, extra_ops=()):
+def run_lines(drv, cfg, items, extra_ops=(), dates=True):
     """items: [(lang, text)] single- or multi-line. -> list of results (one per item): the
     driver result dict of the execute op."""
     # every fourth batch runs after a neutral piece of API history (see gen_hostile.config_ops); the flag is set on the caller's
@@ -29,6 +29,14 @@ def run_lines(drv, cfg, items, extra_ops=()):
     # patterns default() registers): the other public constructor must give the same calculator; the batch after it gets a new default one
     cfg['json_built'] = (_NOISE[0] % 12 == 5)
     cfg['restore_default'] = (_NOISE[0] % 12 == 6)
+    if cfg['json_built']:
+        # ... with edits to the text that carry no meaning: the items of each unit table (every item has its own index) and the words
+        # of each word group listed in another order; monitors whose lines contain no dates also run without the date patterns
+        cfg['json_edits'] = gh.neutral_config_edits(_NOISE[0])
+        cfg['json_dates'] = dates or (_NOISE[0] % 24 == 5)
+    else:
+        cfg.pop('json_edits', None)
+        cfg.pop('json_dates', None)
     cops = gh.config_ops(cfg) + list(extra_ops)
     ops = cops + [{'op': 'execute', 'lang': lang, 'text': text} for (lang, text) in items]
     rs = drv.run(ops)
